@@ -12,7 +12,7 @@ from ..desc import field, message, method, service, file, request, OPERATION
 from ..ref import names
 from ..report import HarnessError
 
-RULE = ('cells = response type option(8) x metadata type option(8) (relative/qualified name x {service file, imported file, '
+RULE = ('cells = response type option(9) x metadata type option(9) (relative/qualified name x {service file, imported file, '
         'non-imported file}, Empty, Struct) + unannotated Operation + rejection cells; histories = initial {done, not done} x '
         'not-done^k (k<=3) x {response, 3 error codes}; x {sync, asyncio, REST}; non-trivial = distinct (cell, client, history) '
         'that polled GetOperation at least once')
@@ -23,15 +23,20 @@ TYPE_OPTS = {
     'rel/svc-file': ('ResA', Q('ResA')), 'fq/svc-file': (f'{P}.ResA', Q('ResA')),
     'rel/imported': ('ResB', Q('ResB')), 'fq/imported': (f'{P}.ResB', Q('ResB')),
     'rel/not-imported': ('ResC', Q('ResC')), 'fq/not-imported': (f'{P}.ResC', Q('ResC')),
+    # a type in the API's own operation.proto: its module name collides with api-core's `operation` module
+    'rel/operation-file': ('OpFileMeta', Q('OpFileMeta')),
     'empty': ('google.protobuf.Empty', '.google.protobuf.Empty'),
     'struct': ('google.protobuf.Struct', '.google.protobuf.Struct'),
 }
-OPS_YAML = apis.MIXIN_YAML
+# the GetOperation rule gets an additional binding, as real service configs have
+OPS_YAML = apis.MIXIN_YAML.replace("    get: '/v1/{{name=operations/*}}'\n",
+                                   "    get: '/v1/{{name=operations/*}}'\n    additional_bindings:\n    - get: '/v1/{{name=projects/*/operations/*}}'\n")
 
 
 def build(transport='grpc+rest'):
     fb = file('acme/lro/v1/types_b.proto', P, messages=[message('ResB', [field('b', 1, 'string'), field('n', 2, 'int32')])])
     fc = file('acme/lro/v1/types_c.proto', P, messages=[message('ResC', [field('c', 1, 'string'), field('flag', 2, 'bool')])])
+    fo = file('acme/lro/v1/operation.proto', P, messages=[message('OpFileMeta', [field('step', 1, 'int32'), field('note', 2, 'string')])])
     msgs = [message('ResA', [field('a', 1, 'string'), field('pct', 2, 'int32')]), message('StartRequest', [field('name', 1, 'string')])]
     meths, cells = [], []
     for i, (r, m) in enumerate(itertools.product(TYPE_OPTS, TYPE_OPTS)):
@@ -45,8 +50,9 @@ def build(transport='grpc+rest'):
     std = desc.std_dep_names()
     fb.dependency.extend(std)
     fc.dependency.extend(std)
+    fo.dependency.extend(std)
     main.dependency.extend(std + [fb.name])
-    req = request([fb, fc, main], f'transport={transport},autogen-snippets=false,service-yaml=@svc.yaml@')
+    req = request([fb, fc, fo, main], f'transport={transport},autogen-snippets=false,service-yaml=@svc.yaml@')
     desc.gate(req)
     return req, {'svc.yaml': OPS_YAML.format(service=f'{P}.Lro')}, cells
 
@@ -126,7 +132,7 @@ def run(ctx, only=None):
                           dict(client=job['_client'], cells=[f['cell']]))
     if not only and total < 3000 and not ctx.violations:
         raise HarnessError(f'C08 exploration collapsed: {total} histories')
-    ctx.extra['bound'] = 'not-done^k with k<=3 (5 thorough); 64 type-resolution cells'
+    ctx.extra['bound'] = 'not-done^k with k<=3 (5 thorough); 81 type-resolution cells'
     ctx.assume('polling runs under a virtual clock; api-core operation futures are trusted')
 
 
